@@ -71,6 +71,9 @@ static void gen(uint64_t seed, const std::string &prop, Plan &plan) {
         else if (c < 93) plan.ops.push_back(Op{0, "attr", {(int64_t)r.below(8), (int64_t)r.below(6)}, "", {}});
         else if (c < 96) plan.ops.push_back(Op{0, "flood", {(int64_t)r.below((uint64_t)nsrv), (int64_t)r.range(30, 44)}, stp[r.below((uint64_t)nsrv)], {}});   // nobody accepts: the listen queue fills up
         else plan.ops.push_back(Op{0, "pump", {2}, "", {}});
+        // interest declared on some socket: its descriptors are registered in the socket's epoll instance from here on
+        // (what a forked child's xcm_cleanup must leave alone, what close has to undo)
+        if (r.chance(0.35)) plan.ops.push_back(Op{0, "await", {(int64_t)r.below(16), (int64_t)r.below(4)}, "", {}});
     }
     plan.ops.push_back(Op{0, "pump", {2}, "", {}, -1});
     plan.ops.push_back(Op{0, "closeall", {}, "", {}, -1});
@@ -245,6 +248,17 @@ static void program(const Plan *pl) {
                 x_close(x);
             }
         } else if (op.kind == "sleep") task_sleep(op.arg(0) * MS);
+        else if (op.kind == "await") {
+            size_t ns = LX->servers.size(), nc = LX->conns.size();
+            if (ns + nc > 0) {
+                size_t k = (size_t)op.arg(0) % (ns + nc);
+                XSock *x = k < ns ? LX->servers[k] : LX->conns[k - ns];
+                if (!x->closed && x->nonblocking) {
+                    static const int conds[] = {XCM_SO_RECEIVABLE, XCM_SO_SENDABLE, XCM_SO_RECEIVABLE | XCM_SO_SENDABLE, 0};
+                    x_await(x, k < ns ? (op.arg(1) == 3 ? 0 : XCM_SO_ACCEPTABLE) : conds[op.arg(1) % 4]);
+                }
+            }
+        }
         else if (op.kind == "attr") {
             if (!LX->conns.empty()) {
                 XSock *x = LX->conns[(size_t)op.arg(0) % LX->conns.size()];
